@@ -160,7 +160,7 @@ package pogreb
 // the iterator reads the file of its segment through a reader positioned at it.offset
 //@ spec func segItInv(it *segmentIterator) bool = it != nil && it.f != nil && it.f.file != nil && it.f.file.File != nil && it.r != nil && hOpen[it.r] && len(it.buf) == 6 && arr(it.buf) != 0 && fidOf[it.r] == fidOf[it.f.file.File] && hPos[it.r] == int64(it.offset) && fLen[fidOf[it.r]] <= 0xffffffff && fLen[fidOf[it.r]] >= 0 && it.f.file.size == fLen[fidOf[it.r]] && int64(it.offset) <= fLen[fidOf[it.r]]
 
-//@ func (it *segmentIterator) next() (rec record, err error) [C08,C18,C19,C16]
+//@ func (it *segmentIterator) next() (rec record, err error) [C04,C05,C08,C18,C19,C16]
 //@   requires inv: segItInv(it)
 //@   ensures done: !isIOErr(err) && fLen[fidOf[it.r]] <= int64(old(it.offset)) ==> err == ErrIterationDone && it.offset == old(it.offset)
 //@   ensures shorthdr: !isIOErr(err) && int64(old(it.offset)) < fLen[fidOf[it.r]] && fLen[fidOf[it.r]] - int64(old(it.offset)) < 6 ==> err == io.ErrUnexpectedEOF
@@ -175,6 +175,7 @@ package pogreb
 //@   ensures onlyvalid: err == nil ==> crcOK(fData[fidOf[it.r]], int(old(it.offset))) && int64(old(it.offset)) + int64(recSize(fData[fidOf[it.r]], int(old(it.offset)))) <= fLen[fidOf[it.r]]
 //@   ensures errs: err != nil ==> isIOErr(err) || err == ErrIterationDone || err == io.EOF || err == io.ErrUnexpectedEOF || err == errCorrupted
 //@   ensures stays: err != nil ==> it.offset == old(it.offset)
+//@   ensures [C04,C05,C08] onlydone: err == ErrIterationDone ==> fLen[fidOf[it.r]] <= int64(it.offset)
 //@   at call ChecksumIEEE@1: assert bytes-read: sameBytes(contents(data), off(data), fData[fidOf[it.r]], int(old(it.offset)), len(data)) && len(data) == recSize(fData[fidOf[it.r]], int(old(it.offset)))
 //@   at call ChecksumIEEE@1: assert crc-field: le32(contents(data), off(data)+len(data)-4) == le32(fData[fidOf[it.r]], int(old(it.offset))+recSize(fData[fidOf[it.r]], int(old(it.offset)))-4)
 //@   at call ChecksumIEEE@1: assert crc-range: crc(contents(data), off(data), len(data)-4) == crc(fData[fidOf[it.r]], int(old(it.offset)), recSize(fData[fidOf[it.r]], int(old(it.offset)))-4)
